@@ -14,9 +14,12 @@ package c12
 
 import (
 	"fmt"
+	"runtime"
 	"sort"
 	"strconv"
 	"strings"
+	"sync/atomic"
+	"time"
 
 	"github.com/welllog/golib/mapz"
 
@@ -57,6 +60,7 @@ func init() {
 		Classify: classify,
 		Parallel: true,
 		Extras: []core.Extra{
+			{Name: "extractor-selftest", Run: selfTestExtra},
 			{Name: "race-detector+linearizability", Run: raceExtra},
 		},
 		Assumptions: []string{
@@ -149,6 +153,80 @@ func gen(r *core.Rand, tier string) core.Case {
 
 type pair struct{ k, v int }
 
+// opTimeout: a sequential SafeKV call is a handful of map operations; one that has not
+// returned is examined with a goroutine dump, and given up after this long.
+const opTimeout = 15 * time.Second
+
+// proven lock leaks so far in this process: after a few, the first look at the dump
+// comes earlier (the proof is the dump, not the elapsed time, so this only saves time
+// on a tree where most cases deadlock).
+var leaksSeen atomic.Int32
+
+func goid() string {
+	buf := make([]byte, 64)
+	buf = buf[:runtime.Stack(buf, false)]
+	f := strings.Fields(string(buf)) // "goroutine 123 [running]:"
+	if len(f) >= 2 {
+		return f[1]
+	}
+	return "?"
+}
+
+// parkedOnRWMutex: does the dump show goroutine `id` blocked inside sync.(*RWMutex)?
+func parkedOnRWMutex(id string) bool {
+	buf := make([]byte, 1<<20)
+	for {
+		n := runtime.Stack(buf, true)
+		if n < len(buf) || len(buf) >= 256<<20 {
+			buf = buf[:n]
+			break
+		}
+		buf = make([]byte, 2*len(buf))
+	}
+	for _, g := range strings.Split(string(buf), "\n\n") {
+		if strings.HasPrefix(g, "goroutine "+id+" [") {
+			return strings.Contains(g, "sync.(*RWMutex)") && !strings.HasPrefix(g, "goroutine "+id+" [running")
+		}
+	}
+	return false
+}
+
+// watchdogOp runs one sequential op in its own goroutine. If it does not return and
+// the dump shows THAT goroutine parked on the RWMutex — nobody else uses this SafeKV,
+// so nobody can ever release it — the answer is "deadlock" (an earlier call of the
+// sequence left the lock held). Without that proof it keeps waiting, and answers
+// "timeout" after opTimeout.
+func watchdogOp(f func() string) string {
+	ch := make(chan string, 1)
+	idc := make(chan string, 1)
+	go func() { idc <- goid(); ch <- watchdogFrame(f) }()
+	first := time.Second
+	if leaksSeen.Load() >= 3 {
+		first = 30 * time.Millisecond
+	}
+	deadline := time.Now().Add(opTimeout)
+	wait := first
+	id := <-idc
+	for {
+		select {
+		case o := <-ch:
+			return o
+		case <-time.After(wait):
+		}
+		if parkedOnRWMutex(id) {
+			leaksSeen.Add(1)
+			return "deadlock"
+		}
+		if time.Now().After(deadline) {
+			return "timeout"
+		}
+		wait = time.Second
+	}
+}
+
+//go:noinline
+func watchdogFrame(f func() string) string { return core.Guard(f) }
+
 func showPairs(ps []pair) string {
 	sort.Slice(ps, func(i, j int) bool {
 		if ps[i].k != ps[j].k {
@@ -225,6 +303,7 @@ func showTraversal(s *mapz.SafeKV[int, int], len0 int, visited []pair) string {
 
 func impl(c core.Case) []string {
 	var s *mapz.SafeKV[int, int]
+	stuck := false
 	return core.RunOps(c,
 		func(hdr []string) string {
 			if len(hdr) != 2 || hdr[0] != "kv" {
@@ -238,142 +317,154 @@ func impl(c core.Case) []string {
 			return "ok"
 		},
 		func(t []string) string {
-			args := make([]int, 0, len(t))
-			if t[0] != "getwithmap" {
-				for _, a := range t[1:] {
-					v, ok := atoi(a)
-					if !ok {
-						return "bad-op"
-					}
-					args = append(args, v)
-				}
+			if stuck {
+				return "dead"
 			}
-			need := func(n int) bool { return len(args) == n }
-			switch t[0] {
-			case "get":
-				if !need(1) {
-					return "bad-op"
-				}
-				v, ok := s.Get(args[0])
-				return fmt.Sprintf("%d %v", v, ok)
-			case "getwithlock":
-				if !need(1) {
-					return "bad-op"
-				}
-				res := "notcalled"
-				s.GetWithLock(args[0], func(v int) { res = fmt.Sprintf("called %d", v) })
-				return res
-			case "getwithmap":
-				ps, ok := parsePairs(t[1:])
-				if !ok {
-					return "bad-op"
-				}
-				m := map[int]int{}
-				for _, p := range ps {
-					m[p.k] = p.v
-				}
-				s.GetWithMap(m)
-				var out []pair
-				for k, v := range m {
-					out = append(out, pair{k, v})
-				}
-				return showPairs(out)
-			case "set":
-				if !need(2) {
-					return "bad-op"
-				}
-				s.Set(args[0], args[1])
-				return "ok"
-			case "setnx":
-				if !need(2) {
-					return "bad-op"
-				}
-				return strconv.FormatBool(s.SetNx(args[0], args[1]))
-			case "setx":
-				if !need(2) {
-					return "bad-op"
-				}
-				return strconv.FormatBool(s.SetX(args[0], args[1]))
-			case "del":
-				s.Delete(args...)
-				return "ok"
-			case "has":
-				if !need(1) {
-					return "bad-op"
-				}
-				return strconv.FormatBool(s.Has(args[0]))
-			case "contains":
-				if !need(1) {
-					return "bad-op"
-				}
-				return strconv.FormatBool(s.Contains(args[0]))
-			case "len":
-				if !need(0) {
-					return "bad-op"
-				}
-				return strconv.Itoa(s.Len())
-			case "keys":
-				if !need(0) {
-					return "bad-op"
-				}
-				return showInts(s.Keys())
-			case "values":
-				if !need(0) {
-					return "bad-op"
-				}
-				return showInts(s.Values())
-			case "range":
-				if !need(1) || args[0] < 0 {
-					return "bad-op"
-				}
-				len0 := s.Len()
-				var vis []pair
-				s.Range(func(k, v int) bool {
-					vis = append(vis, pair{k, v})
-					return len(vis) < args[0]
-				})
-				return showTraversal(s, len0, vis)
-			case "all":
-				if !need(1) || args[0] < 0 {
-					return "bad-op"
-				}
-				len0 := s.Len()
-				var vis []pair
-				for k, v := range s.All() {
-					vis = append(vis, pair{k, v})
-					if len(vis) >= args[0] {
-						break
-					}
-				}
-				return showTraversal(s, len0, vis)
-			case "clear":
-				if !need(0) {
-					return "bad-op"
-				}
-				s.Clear()
-				return "ok"
-			case "mapset":
-				if !need(2) {
-					return "bad-op"
-				}
-				s.Map(func(m mapz.KV[int, int]) { m[args[0]] = args[1] })
-				return "ok"
-			case "mapdel":
-				if !need(1) {
-					return "bad-op"
-				}
-				s.Map(func(m mapz.KV[int, int]) { delete(m, args[0]) })
-				return "ok"
-			case "maplen":
-				if !need(0) {
-					return "bad-op"
-				}
-				n := 0
-				s.Map(func(m mapz.KV[int, int]) { n = len(m) })
-				return strconv.Itoa(n)
+			o := watchdogOp(func() string { return seqStep(s, t) })
+			if o == "deadlock" || o == "timeout" {
+				stuck = true
 			}
-			return "bad-op"
+			return o
 		})
+}
+
+// seqStep performs one op of a sequential case on the real SafeKV.
+func seqStep(s *mapz.SafeKV[int, int], t []string) string {
+	args := make([]int, 0, len(t))
+	if t[0] != "getwithmap" {
+		for _, a := range t[1:] {
+			v, ok := atoi(a)
+			if !ok {
+				return "bad-op"
+			}
+			args = append(args, v)
+		}
+	}
+	need := func(n int) bool { return len(args) == n }
+	switch t[0] {
+	case "get":
+		if !need(1) {
+			return "bad-op"
+		}
+		v, ok := s.Get(args[0])
+		return fmt.Sprintf("%d %v", v, ok)
+	case "getwithlock":
+		if !need(1) {
+			return "bad-op"
+		}
+		res := "notcalled"
+		s.GetWithLock(args[0], func(v int) { res = fmt.Sprintf("called %d", v) })
+		return res
+	case "getwithmap":
+		ps, ok := parsePairs(t[1:])
+		if !ok {
+			return "bad-op"
+		}
+		m := map[int]int{}
+		for _, p := range ps {
+			m[p.k] = p.v
+		}
+		s.GetWithMap(m)
+		var out []pair
+		for k, v := range m {
+			out = append(out, pair{k, v})
+		}
+		return showPairs(out)
+	case "set":
+		if !need(2) {
+			return "bad-op"
+		}
+		s.Set(args[0], args[1])
+		return "ok"
+	case "setnx":
+		if !need(2) {
+			return "bad-op"
+		}
+		return strconv.FormatBool(s.SetNx(args[0], args[1]))
+	case "setx":
+		if !need(2) {
+			return "bad-op"
+		}
+		return strconv.FormatBool(s.SetX(args[0], args[1]))
+	case "del":
+		s.Delete(args...)
+		return "ok"
+	case "has":
+		if !need(1) {
+			return "bad-op"
+		}
+		return strconv.FormatBool(s.Has(args[0]))
+	case "contains":
+		if !need(1) {
+			return "bad-op"
+		}
+		return strconv.FormatBool(s.Contains(args[0]))
+	case "len":
+		if !need(0) {
+			return "bad-op"
+		}
+		return strconv.Itoa(s.Len())
+	case "keys":
+		if !need(0) {
+			return "bad-op"
+		}
+		return showInts(s.Keys())
+	case "values":
+		if !need(0) {
+			return "bad-op"
+		}
+		return showInts(s.Values())
+	case "range":
+		if !need(1) || args[0] < 0 {
+			return "bad-op"
+		}
+		len0 := s.Len()
+		var vis []pair
+		s.Range(func(k, v int) bool {
+			vis = append(vis, pair{k, v})
+			return len(vis) < args[0]
+		})
+		return showTraversal(s, len0, vis)
+	case "all":
+		if !need(1) || args[0] < 0 {
+			return "bad-op"
+		}
+		len0 := s.Len()
+		var vis []pair
+		for k, v := range s.All() {
+			vis = append(vis, pair{k, v})
+			if len(vis) >= args[0] {
+				break
+			}
+		}
+		return showTraversal(s, len0, vis)
+	case "clear":
+		if !need(0) {
+			return "bad-op"
+		}
+		s.Clear()
+		return "ok"
+	case "mapset":
+		if !need(2) {
+			return "bad-op"
+		}
+		s.Map(func(m mapz.KV[int, int]) { m[args[0]] = args[1] })
+		return "ok"
+	case "mapdel":
+		if !need(1) {
+			return "bad-op"
+		}
+		s.Map(func(m mapz.KV[int, int]) { delete(m, args[0]) })
+		return "ok"
+	case "maplen":
+		if !need(0) {
+			return "bad-op"
+		}
+		n := 0
+		s.Map(func(m mapz.KV[int, int]) { n = len(m) })
+		return strconv.Itoa(n)
+	}
+	return "bad-op"
 }
 
 // check: the property's sequential content against a plain Go map (independent of
@@ -382,6 +473,12 @@ func check(c core.Case, out []string) *core.Failure {
 	ref := map[int]int{}
 	for i := 1; i < len(c.Lines); i++ {
 		t := core.Toks(c.Lines[i])
+		if i < len(out) && out[i] == "deadlock" {
+			return &core.Failure{Key: "lock-leak", Desc: fmt.Sprintf("op %d %q never returns: its goroutine is parked on the RWMutex although this SafeKV is used by one goroutine only — an earlier call of this sequence returned with the lock held", i, c.Lines[i])}
+		}
+		if i < len(out) && out[i] == "timeout" {
+			return &core.Failure{Key: "op-timeout", Desc: fmt.Sprintf("op %d %q did not return within %s (no deadlock proof in the goroutine dump)", i, c.Lines[i], opTimeout)}
+		}
 		var a []int
 		if t[0] != "getwithmap" {
 			for _, x := range t[1:] {
